@@ -161,7 +161,7 @@ def verdict(prop, tier, seed, mods, results, wall, write=True, mres=None, scratc
             "units": [{"unit": r.unit.name, "cfg": r.cfg, "tool": r.unit.tool, "named": len(r.obligations), "verifier_verified": r.verified_count,
                        "verifier_errors": r.error_count, "solver_s": round(r.solver_s, 3), "wall_s": round(r.wall_s, 2),
                        "undecided": r.undecided, "extraction_drops": r.unit.dropped, "rewrites": r.unit.rewrites[:40], "bounded": r.unit.bounded,
-                       "stability": getattr(r, "stability", None)} for r in results],
+                       "stability": getattr(r, "stability", None), "assumption_sites": getattr(r, "assumption_sites", [])} for r in results],
             "samples": [{"obligation": k, "clause": o["clause"][:300], "backend": o["backend"], "unit": o["unit"]} for k, o in sorted(obligations.items())][:400],
             "failed": [{"obligation": k, "kind": f["kind"], "message": f["message"][:300]} for k, f in sorted(failed.items())],
             "known_findings_seen": [e["obligation"] for e, f in known_seen],
